@@ -277,6 +277,9 @@ class AdapterSpecification:
                 "anchored adapters always need to match in full."
             )
 
+        if parameters.get("min_overlap", 1) < 1:
+            raise ValueError("The overlap must be at least 1")
+
         if parameters.get("min_overlap", 0) > len(spec):
             parameters["min_overlap"] = len(spec)
 
